@@ -2690,6 +2690,51 @@ func hasSwzOfCompound(m *wmodule) bool {
 	return found
 }
 
+// hasLetSnapshot: is there a `let x = v;` whose initialiser is exactly a variable of array, vector or matrix type, with x
+// indexed somewhere (`x[i]`)?  The decidable shape of the recorded SPIR-V defect C01-spv-let-of-variable-indexed-late:
+// the access is emitted as an OpAccessChain on the variable itself, so a store between the `let` and the access is seen.
+func hasLetSnapshot(m *wmodule) bool {
+	snaps := map[string]bool{}
+	var ws func(l []*wstmt)
+	var wst func(st *wstmt)
+	wst = func(st *wstmt) {
+		if st == nil {
+			return
+		}
+		if st.k == "let" && st.e != nil && st.e.k == "var" && st.e.ty != nil && (st.e.ty.k == "arr" || st.e.ty.k == "vec" || st.e.ty.k == "mat") {
+			snaps[st.name] = true
+		}
+		wst(st.init)
+		wst(st.upd)
+		ws(st.body)
+		ws(st.els)
+		for _, cs := range st.cases {
+			ws(cs.body)
+		}
+	}
+	ws = func(l []*wstmt) {
+		for _, st := range l {
+			wst(st)
+		}
+	}
+	for _, fn := range m.funcs {
+		ws(fn.body)
+	}
+	if m.entry != nil {
+		ws(m.entry.body)
+	}
+	if len(snaps) == 0 {
+		return false
+	}
+	found := false
+	walkModuleExprs(m, func(e *wexpr) {
+		if e.k == "idx" && len(e.args) == 2 && e.args[0].k == "var" && snaps[e.args[0].name] {
+			found = true
+		}
+	})
+	return found
+}
+
 // hasOpInit: does a private global have an operator expression as initialiser (`var<private> g: i32 = 3i * 4i;`)?  The
 // decidable shape of the recorded MSL / GLSL defect: such an initialiser is left unevaluated.
 func hasOpInit(m *wmodule) bool {
